@@ -414,6 +414,19 @@ func emptyish(v reflect.Value) bool {
 	return (v.Kind() == reflect.Slice || v.Kind() == reflect.Map) && v.Len() == 0
 }
 
+// Emptyish reports whether v holds nothing: nil, a zero value, an empty
+// container, or a pointer/interface to one of those.
+func Emptyish(v interface{}) bool {
+	rv := reflect.ValueOf(v)
+	for rv.IsValid() && (rv.Kind() == reflect.Ptr || rv.Kind() == reflect.Interface) {
+		if rv.IsNil() {
+			return true
+		}
+		rv = rv.Elem()
+	}
+	return !rv.IsValid() || emptyish(rv)
+}
+
 func (c *cmp) structPrefix(a, b reflect.Value, path string) bool {
 	partialUsed := false
 	for i := 0; i < a.NumField(); i++ {
